@@ -664,7 +664,7 @@ def specialise(body, avoid, crate=None):
     return R, avoid
 
 
-def reach_through_edge(body, edge, crate=None):
+def reach_through_edge(body, edge, crate=None, want_avoid=False):
     """Blocks on the paths entry -> .. -> edge -> .., with the flags and locally built verdicts (`let st = if c { A } else { B }; ..
     match st {..}`) folded to what they are on those paths: every edge that leaves the set of blocks from which the edge's
     source is still reachable (other than the edge itself) is excluded, then `specialise` folds what the remaining definitions decide."""
@@ -682,7 +682,8 @@ def reach_through_edge(body, edge, crate=None):
         for v in body.succ(u):
             if (u, v) != (src, tgt) and (v not in pre or u == src):
                 avoid.add((u, v))
-    return specialise(body, avoid, crate)[0]
+    R, avoid = specialise(body, avoid, crate)
+    return (R, avoid) if want_avoid else R
 
 
 _INT_CMP = {"Eq": lambda a, b: a == b, "Ne": lambda a, b: a != b, "Lt": lambda a, b: a < b, "Le": lambda a, b: a <= b,
